@@ -969,9 +969,9 @@ Lemma rcr_enabled c : reachable c -> running_or_done c -> c_pc c <> PExited ->
 Proof.
   intros R (M & Rn) N. pose proof (reachable_inv _ R) as (I1 & _).
   destruct c as [p r s t n w d tr]; simpl in *. subst d. destruct I1 as (_ & I2 & _).
-  destruct p; simpl; eauto; try congruence.
-  destruct w; simpl; eauto.
-  destruct Rn as [->|[X|X]]; try discriminate X. destruct (I2 eq_refl eq_refl eq_refl); discriminate.
+  destruct p; simpl; eauto; try congruence;
+  destruct Rn as [X|[X|X]]; try discriminate X; subst r; simpl; eauto.
+  destruct w; simpl; eauto. destruct (I2 eq_refl eq_refl eq_refl); discriminate.
 Qed.
 
 Lemma bounded_exit_running c ms c' :
@@ -1019,21 +1019,47 @@ Proof.
   destruct k; simpl in *; try discriminate; injection H as <-; repeat split.
 Qed.
 
-Lemma not_running_sleeps :
-  exists c c', reachable c /\ c_run c = false /\ c_td c = false /\ c_pc c = PTop
-    /\ run_moves c (repeat (MThread false) 4) = Some c' /\ parked c'
-    /\ (forall b, step c' (MThread b) = None) /\ step c' (MCmd Wait) = None
-    /\ forall ms c'', forallb no_wake ms = true -> run_moves c' ms = Some c'' ->
-         parked c'' /\ (forall b, step c'' (MThread b) = None) /\ step c'' (MCmd Wait) = None.
+Lemma parked_forever ms : forall c0 c'', parked c0 -> forallb no_wake ms = true ->
+  run_moves c0 ms = Some c'' -> parked c''.
 Proof.
-  exists init, (mk PSleep false false false 0 false false []).
+  induction ms as [|m ms IH]; simpl; intros c0 c'' P F H.
+  - injection H as <-. auto.
+  - apply andb_true_iff in F. destruct F as [F1 F2].
+    destruct (step c0 m) as [c1|] eqn:E; [|discriminate].
+    apply (IH c1); auto. apply (parked_stays c0 m); auto.
+Qed.
+
+Lemma parked_disabled c : parked c -> (forall b, step c (MThread b) = None) /\ step c (MCmd Wait) = None.
+Proof.
+  destruct c as [p r s t n w d tr]. intros (P & W & M). simpl in *. subst. split; reflexivity.
+Qed.
+
+Definition asleep0 : config := mk PSleep false false false 0 false false [].
+
+(* from the very first configuration (run_ down, no teardown) the thread, left to itself, parks in
+   cv_run_.wait after 4 moves and - whatever reset()/queries follow, whatever run_condition would
+   answer - never moves again and wait() is never enabled *)
+Lemma not_running_sleeps :
+  reachable init /\ c_run init = false /\ c_td init = false /\ distb (c_pc init) = None
+  /\ run_moves init (repeat (MThread false) 4) = Some asleep0
+  /\ forall ms c'', forallb no_wake ms = true -> run_moves asleep0 ms = Some c'' ->
+       c_pc c'' <> PExited /\ (forall b, step c'' (MThread b) = None) /\ step c'' (MCmd Wait) = None.
+Proof.
   split; [constructor|]. repeat (split; [reflexivity|]).
-  split; [repeat split|]. split; [reflexivity|]. split; [reflexivity|].
-  intros ms. generalize (mk PSleep false false false 0 false false []) at 1 2.
-  assert (K : forall ms c0 c'', parked c0 -> forallb no_wake ms = true -> run_moves c0 ms = Some c'' -> parked c'').
-  { clear. induction ms as [|m ms IH]; simpl; intros c0 c'' P F H.
-    - injection H as <-. auto.
-    - apply andb_true_iff in F. destruct F as [F1 F2].
-      destruct (step c0 m) as [c1|] eqn:E; [|discriminate].
-      apply (IH c1); auto. eapply parked_stays; eauto. }
-Abort.
+  intros ms c'' F H.
+  assert (P : parked c'') by (apply (parked_forever ms asleep0); auto; repeat split).
+  split; [destruct P as (X & _); rewrite X; discriminate | apply parked_disabled; auto].
+Qed.
+
+(* ---------- commands issued before boot() ---------- *)
+(* boot() only creates the thread; a command issued before it acts on the same flags as one issued
+   after it while the thread has not moved yet.  Every valuation of (run_, reset_, teardown_) a
+   pre-boot command sequence can produce is reachable with the thread still at its first point. *)
+Lemma preboot_valuations r s t :
+  exists ks c, run_moves init ks = Some c /\ c_pc c = PTop /\ c_mid c = false
+               /\ c_run c = r /\ c_rst c = s /\ c_td c = t
+               /\ forallb (fun m => match m with MCmd _ | MRebootEnd => true | _ => false end) ks = true.
+Proof.
+  exists ((if s then [MCmd Reset] else []) ++ (if r then [MCmd Run] else []) ++ (if t then [MCmd Teardown] else [])).
+  destruct r, s, t; eexists; vm_compute; repeat split; reflexivity.
+Qed.
